@@ -40,11 +40,14 @@ def run(ctx):
         lambda: R.sims("VersionedTree_isims.cfg", "simulate 6 keys, 5 versions, 2 snapshots, depth 40", n_s, 45, procs=min(procs, 3), timeout=3000),
         lambda: R.sims("VersionedTree_isim.cfg", "simulate 300 keys, 8 versions, depth 50", n_l, 55, procs=procs, timeout=3000),
     ]
+    n_t = 24 if quick else 600
+    jobs.append(lambda: R.sims("VersionedTree_itiny.cfg", "tiny trees: single-leaf version, unchanged versions, growth, one-version-per-call pruning", n_t, 30, procs=1 if quick else 3, timeout=3000))
     ns, nm = (2, 5) if quick else (8, 16)
     jobs.append(lambda: c24.families(ctx, R, "VersionedTree_iskel.cfg", "VersionedTree_ifam.cfg", "iavl, 120 keys", ns, nm))
     rs = vt.parallel(jobs)
     edges, redges, sims_s, sims_l = rs[0].traces, rs[1].traces, rs[3], rs[4]
-    members = rs[5][0]
+    sims_t = rs[5]
+    members = rs[6][0]
     ctx.cov["edges_emitted"] = len(edges) + len(redges)
     ctx.log("TLC done: %d + %d edges, %d + %d simulated behaviours" % (len(edges), len(redges), len(sims_s), len(sims_l)))
     proofs, fam = {}, {}
@@ -58,6 +61,7 @@ def run(ctx):
         # of a dense sample of keys must verify through ics23 against that version's root hash (in-process and after Reopen)
         lambda: R.drive("VersionedTree_isims.cfg", sims_s, SIM_VARIANTS, hashes=True, proofcheck=True),
         lambda: R.drive("VersionedTree_isim.cfg", sims_l, SIM_VARIANTS, hashes=True, proofcheck=True),
+        lambda: R.drive("VersionedTree_itiny.cfg", sims_t, SIM_VARIANTS, hashes=True, proofcheck=True),
         prove,
         # root hash = function of the history: families of behaviours sharing the hash-relevant script (as C24)
         lambda: fam.update(R.drive("VersionedTree_ifam.cfg", members, SIM_VARIANTS, mode="family", svsample=2)),
@@ -67,10 +71,13 @@ def run(ctx):
         ctx.cov[k] = int(proofs.get(k, 0))
     ctx.cov["hash_families"] = {k: int(fam.get(k, 0)) for k in ("families", "positions", "cross_comparisons", "min_members")}
     ctx.cov["iavl_prune_refused_after_restart"] = int(R.sum.get("iavl_prune_refused_after_restart", 0))
-    for k in ("replays_saved_idempotently", "proofs_through_replayed_nodes", "version_proofs_verified"):
+    for k in ("replays_saved_idempotently", "proofs_through_replayed_nodes", "version_proofs_verified", "stepwise_prune_patterns"):
         ctx.cov[k] = int(R.sum.get(k, 0))
     # vacuity: LoadVersion(older) + identical replay accepted by SaveVersion, then >= 1 new version from the same session,
     # then a proof through a node the replay wrote, verified against a later version's root
+    # vacuity: a single-leaf version, then an unchanged version, then a growth, then two consecutive one-version prunes
+    if not ctx.violations and ctx.cov["stepwise_prune_patterns"] < 1:
+        raise vlib.Inconclusive("VACUOUS", "no 'single-leaf version / unchanged version / growth / two one-step prunes' history was replayed")
     if not ctx.violations and ctx.cov["proofs_through_replayed_nodes"] < 1:
         raise vlib.Inconclusive("VACUOUS", "no proof through a replayed node after an idempotent save (replays saved idempotently: %d)" % ctx.cov["replays_saved_idempotently"])
     ctx.cov["exhaustive"] = True
